@@ -215,7 +215,9 @@ def _walk_unfolded(n):
         yield z
         stack.extend(reversed(children(z)))
 
-_PURE_NAMES = ('operator bool', 'operator==', 'operator!=', 'operator<', 'operator>', 'operator<=', 'operator>=', 'size', 'length', 'empty', '__builtin_expect')
+_PURE_NAMES = ('operator bool', 'operator==', 'operator!=', 'operator<', 'operator>', 'operator<=', 'operator>=', 'size', 'length', 'empty', '__builtin_expect',
+               # non-modifying sequence algorithms and the iterators they are given (their predicate is walked like any other sub-expression)
+               'all_of', 'any_of', 'none_of', 'find', 'find_if', 'find_if_not', 'count', 'count_if', 'equal', 'begin', 'end', 'cbegin', 'cend', 'min', 'max')
 _SEQ_CLASSES = ('basic_string', 'vector', 'array', 'basic_string_view', 'span')
 
 def pure_expr(e, allow_const_calls=False, mut=()):
@@ -227,6 +229,9 @@ def pure_expr(e, allow_const_calls=False, mut=()):
             # element access of a sequence container has no effect (unlike map::operator[])
             if allow_const_calls and callee_name(y) == 'operator[]' and any(c in (y.get('cq') or '') for c in _SEQ_CLASSES): continue
             if callee_name(y) not in ('size', 'length') or y.get('args'): return False
+        elif k == 'LambdaExpr' and allow_const_calls: continue          # creating a closure has no effect; its body is walked
+        elif k == 'CXXConstructExpr' and allow_const_calls and len(y.get('args') or []) == 1 and any(z.get('k') == 'LambdaExpr' for z in walk(y['args'][0])) and \
+             sum(1 for z in walk(y['args'][0])) < 400: continue      # copy of a closure object
         elif k in ('CXXConstructExpr', 'CXXTemporaryObjectExpr', 'LambdaExpr', 'CXXNewExpr', 'InitListExpr'): return False
         elif k == 'DeclRefExpr' and y.get('dk') in ('Var', 'ParmVar') and y.get('id') in mut: return False
         elif k == 'UnaryOperator' and y.get('op') in ('++', '--', '*', '&'): return False
@@ -386,6 +391,10 @@ def path_summaries(cfg, body, max_paths=512):
                 lab = getattr(e, 'label', None)
                 if getattr(e, 'kind', None) == 'edge' and lab in (True, False):
                     walk_(e, env, conds + [canon(nd.ast, env, neg=not lab)], effects, onpath)
+            return
+        if k == 'stmt' and getattr(nd, 'label', None) == 'inlined-call':
+            # the marker of an expanded helper call: its statements follow
+            for s2 in nd.succ: walk_(s2, env, conds, effects, onpath)
             return
         if k == 'stmt' and isinstance(nd.ast, dict):
             a = nd.ast
